@@ -772,6 +772,18 @@ def rule_r8(chk, p, t):
     r.guard(obs.qualname, obs_slots)
 
 
+
+def rule_r10(chk, p, t):
+    """Epoch-key sources may be cached only coherently (shared analysis rsa/memo.py, B)."""
+    from rules.shared_memo import coherence_rule
+
+    A, C = "resonaate.agents.agent_base.Agent", "resonaate.scenario.clock.ScenarioClock"
+    coherence_rule(
+        chk, p, t, "C09.R10",
+        [(A, "julian_date_epoch"), (A, "datetime_epoch"), (A, "time"), (C, "julian_date_epoch"), (C, "datetime_epoch")],
+        "the epoch-key sources of every stored row (Agent / ScenarioClock julian_date_epoch, datetime_epoch, time)",
+    )
+
 def run(chk, p, t):
     chk.explanation = (
         "Static decision of structural necessary conditions of C09: (R1) every row built on a run path is keyed by a "
@@ -784,7 +796,7 @@ def run(chk, p, t):
         "step / output-step combinations."
     )
     chk.assumptions += ["SQLAlchemy session semantics (commit / rollback / close)", "SQLite does not enforce the declared foreign keys (hence the static obligation)", "rows loaded from the importer are epoch aligned (external input)"]
-    steps = [("C09.R1", rule_r1), ("C09.R2", rule_r2), ("C09.R3", rule_r3), ("C09.R4", rule_r4), ("C09.R5", rule_r5), ("C09.R6", rule_r6_r7), ("C09.R8", rule_r8), ("C09.R9", rule_r9)]
+    steps = [("C09.R1", rule_r1), ("C09.R2", rule_r2), ("C09.R3", rule_r3), ("C09.R4", rule_r4), ("C09.R5", rule_r5), ("C09.R6", rule_r6_r7), ("C09.R8", rule_r8), ("C09.R9", rule_r9), ("C09.R10", rule_r10)]
     for rid, fn in steps:
         if chk.only_rule is not None and chk.only_rule != rid and not (chk.only_rule == "C09.R7" and rid == "C09.R6"):
             continue
